@@ -30,7 +30,7 @@ FAULTS = {
     'range': ['addi x1, x1, 5000', 'addi x1, x1, -2049', 'lw x1, x2, 2048', 'lw x1, 4096(x2)', 'sw x1, x2, -3000', 'lui x1, 0x100000', 'auipc x1, -524289',
               'beq x1, x2, 5000', 'bne x8, x0, 4096', 'jal x1, 2097152', 'jalr x1, x1, 3', 'slli x1, x1, 32', 'srai x8, x8, 40', 'c.addi x1, 100',
               'c.lw x8, x9, 128', 'c.j 4000', 'csrrw x1, x2, 5000', 'fence 16, 1', 'db 256', 'dh 70000', 'dw 0x100000000', 'dd -0x8000000000000001',
-              'bytes 1 2 256', 'shorts 65536', 'ints -2147483649', 'pack <B 256', 'pack <h, 40000', 'addi x8, x8, 32 * 100', 'bytes 1 256', 'pack >H 65536', 'align 0', 'align 0x0'],
+              'bytes 1 2 256', 'shorts 65536', 'ints -2147483649', 'pack <B 256', 'pack <h, 40000', 'addi x8, x8, 32 * 100', 'bytes 1 256', 'pack >H 65536', 'align 0', 'align 0x0', 'DB 256', 'Dh 70000', 'DW 0x100000000', 'BYTES 1 2 256', 'ADDI x1, x1, 5000', 'Pack <B 256'],
     'unknown_register': ['add x1, x1, foo', 'addi x32, x1, 1', 'mv x1, foo', 'lw foo, 0(x1)', 'sw x1, 0(bar)', 'c.mv x1, foo', 'li foo, 1', 'sub x8, x8, x99',
                          'slli x8, x8, foo', 'and x8, x8, q', 'neg a9, a0', 'jr x40', 'beq foo, x0, START', 'c.addi foo, 1', 'amoadd.w x1, x2, foo', 'csrrw foo, x1, 1'],
     'undefined_label': ['beq x1, x2, nolabel', 'j nolabel', 'jal x1, nolabel', 'jal nolabel', 'call nolabel', 'tail nolabel', 'li x5, nolabel', 'dw nolabel',
@@ -39,7 +39,8 @@ FAULTS = {
     'undefined_constant': ['addi x1, x1, NOCONST', 'K2 = NOCONST + 1', 'db NOCONST', 'li x5, NOCONST * 2', 'lw x8, NOCONST(x8)', 'andi x8, x8, NOCONST',
                            'lui x8, NOCONST', 'c.li x8, NOCONST', 'dw %position(START, NOCONST)'],
     'malformed_expression': ['addi x1, x1, 1 +', 'K2 = * 2', 'K2 = (1', 'K2 = 1)', 'K2 = 1 2', "K2 = 'ab'", "K2 = '\\'", 'li x1, 1 +', 'dw (1', 'lw x1, x2, (1',
-                             'db 1 +* 2', 'K2 = 5 5', 'addi x8, x8, )', 'pack <I ((3)', 'sw x1, x2, 4 4', 'li x5, 0x', 'K2 = 0b12', 'dh 12ab', 'lui x5, %hi(', 'li x5, %hi((1)'],
+                             'db 1 +* 2', 'K2 = 5 5', 'addi x8, x8, )', 'pack <I ((3)', 'sw x1, x2, 4 4', 'li x5, 0x', 'K2 = 0b12', 'dh 12ab', 'lui x5, %hi(', 'li x5, %hi((1)',
+                             'j (', 'call (', 'tail (1', 'beqz x8, (', 'bgt x1, x2, (', 'jal (', 'bnez x8, )'],
     'expression_evaluation': ['K2 = 1 << -1', 'addi x1, x1, 1 << -1', 'li x5, 1 << (K1 - 20)', 'dw 1 >> -2', 'K2 = 7 // 0', 'db 7 % 0', 'lui x5, 1 << (K1 - 13)',
                               'K2 = K1 // (K1 - 12)', 'sw x1, x2, 4 % 0', 'pack <I 1 << -4'],
     'non_integer': ['K2 = 1.5', 'K2 = 4 / 2', 'K2 = "s"', 'addi x1, x1, 1.5', 'dw 2.0', 'li x5, 1e3', 'db 3 / 1', 'K2 = None', 'lw x8, 0.0(x8)', 'dh [1]'],
@@ -47,8 +48,10 @@ FAULTS = {
     'position_relative_constant': ['K2 = %offset(START)', 'K2 = %hi(%offset(START))', 'K2 = %lo(%offset(K1))', 'K2 = %lo(%offset(sp))',
                                    'K2 = %hi(%lo(%offset(K1)))', 'K2 = %lo(%offset(8))'],
     'twin_text': ['beqz x8, START'],
-    'error_directive': ['error this board is not supported', '  error indented message # with hash', 'error (paren, comma', 'error x'],
-    'missing_include': ['include nosuch_file.asm', 'include "nosuch dir/f.asm"', 'include_bytes nosuch.bin', 'include'],
+    'error_directive': ['error this board is not supported', '  error indented message # with hash', 'error (paren, comma', 'error x',
+                        'error see C:\\Users\\me\\boards.txt', 'error 100\\% wrong \\', 'error caf\u00e9 \\x4 \\N{nothing}', 'error \\ud800'],
+    'missing_include': ['include nosuch_file.asm', 'include "nosuch dir/f.asm"', 'include_bytes nosuch.bin', 'include',
+                        'include .', 'include_bytes .', 'include ..'],          # a directory is not an include file
 }
 
 
@@ -73,7 +76,7 @@ def plant_api(asm, acc, fault_class, fault, pos, depth, compress, root=None):
         # chain of files: main includes d1 includes d2 ...; the deepest holds the planted program
         names = ['main.asm'] + ['d%d.asm' % i for i in range(1, depth + 1)]
         extra = 0
-        lead = [[], ['', ''], ['   ', '# header comment', ''], ['\t']][(pos + 2 * depth) % 4]      # blank lines count as lines
+        lead = [[], ['', ''], ['   ', '# header comment', ''], ['\t'], ['# page break \x0c in a comment', 'nop # \u2028 \x85 \x0b'], ['# \x1c\x1d\x1e']][(pos + 2 * depth) % 6]      # blank lines count as lines
         if (pos + depth) % 2 == 0:
             # a binary include that resolves fine sits before the planted line in the same file
             with open(os.path.join(root, 'blob.bin'), 'wb') as f:
@@ -225,7 +228,7 @@ def run_shard(sh, deadline):
 
 # planted lines that would emit an odd number of bytes if accepted: planted only where no pc-relative reference of the base
 # program crosses them (start / end), so that the plant stays the *only* faulty line
-ODD = {'db 7 % 0', 'db 256', 'bytes 1 2 256', 'pack <B 256', 'db NOCONST', 'db 1 +* 2', 'db 3 / 1', 'include_bytes nosuch.bin'}
+ODD = {'include_bytes .', 'DB 256', 'BYTES 1 2 256', 'Pack <B 256', 'db 7 % 0', 'db 256', 'bytes 1 2 256', 'pack <B 256', 'db NOCONST', 'db 1 +* 2', 'db 3 / 1', 'include_bytes nosuch.bin'}
 
 
 def plan(tier, seed):
